@@ -122,7 +122,9 @@ def parse_tcp_v1_hint(hint):  # hint_struct -> hint_obj
         log.msg(f"invalid hostname in hint: {hint!r}")
         return None
     if not ("port" in hint and
-            isinstance(hint["port"], int)):
+            isinstance(hint["port"], int) and
+            0 <= hint["port"] <= 65535):
+        # (a number that is no TCP port makes the reactor's connect() raise)
         log.msg(f"invalid port in hint: {hint!r}")
         return None
     priority = hint.get("priority", 0.0)
